@@ -988,7 +988,7 @@ func (g *g) arithText(pieces *[]Piece) []string {
 	}
 	for i := 0; i < n; i++ {
 		if i > 0 {
-			b.WriteString(g.pick("arith_gap", " ", "  ", "\t", " "))
+			b.WriteString(g.pick("arith_gap", " ", "  ", "\t", " ", "\n", "\n ", " \n  ", "\n\t"))
 		}
 		switch g.ch.Intn(7, "arith_chunk") {
 		default:
